@@ -185,13 +185,28 @@ fn tolmap(rng: &mut Rng) {
         vals.push(x);
         x += if rng.chance(0.15) { 0.0 } else { rng.int(1, 12) as f64 / 4.0 };
     }
+    // zero is a breakpoint in many real tables: shift so that one breakpoint is exactly +0.0 (exact on dyadics)
+    if rng.chance(0.35) {
+        let z = vals[rng.below(n)];
+        for v in vals.iter_mut() {
+            *v -= z;
+            if *v == 0.0 {
+                *v = 0.0; // +0.0
+            }
+        }
+    }
     let strictly = vals.windows(2).all(|w| w[0] < w[1]);
     let dom = DiscreteDomain::try_from(vals.clone()).unwrap();
     let zones: Vec<Tolerance> = (0..n).map(|k| Tolerance::new_unchecked(-(k as f64) - 1.0, k as f64 + 1.0)).collect();
     let map = DiscreteDomainTolMap::try_new(dom.clone(), zones).unwrap();
     let canon = |k: usize| (0..n).rev().find(|j| vals[*j] == vals[k]).unwrap();
     for _ in 0..6 {
-        let q = match rng.below(5) {
+        let q = match rng.below(6) {
+            // the same number with the other sign of zero: -0.0 IS 0.0 as far as "not above x" goes
+            5 => {
+                let b = *rng.pick(&vals);
+                if b == 0.0 { -0.0 } else { b }
+            }
             0 => *rng.pick(&vals),
             1 => next_up(*rng.pick(&vals)),
             2 => next_down(*rng.pick(&vals)),
